@@ -1784,9 +1784,12 @@ class HealSparseMap(object):
                     bit_value = _bitvals_to_packed_array(mask_bit_arr, mask_map._wide_mask_maxbits)
                     bad_pixels, = np.where(np.any((mask_values & bit_value) != 0, axis=1))
             else:
-                bad_pixels, = np.where(mask_map.get_values_pix(valid_pixels) != 0)
+                mask_values = mask_map.get_values_pix(valid_pixels)
+                # (Pixels that are not set in the mask map hold its sentinel, which need not be 0.)
+                bad_pixels, = np.where((mask_values != 0) & (mask_values != mask_map._sentinel))
         else:
-            bad_pixels, = np.where((mask_map.get_values_pix(valid_pixels) & mask_bits) != 0)
+            mask_values = mask_map.get_values_pix(valid_pixels)
+            bad_pixels, = np.where(((mask_values & mask_bits) != 0) & (mask_values != mask_map._sentinel))
 
         if in_place:
             new_map = self
